@@ -135,7 +135,7 @@ Init ==
                             ops |-> IF a <= NRoots THEN RootOps ELSE TaskOps, cur |-> NoCur,
                             iters |-> [c \in Chans |-> 0], tk |-> [i \in 1..4 |-> [on |-> FALSE, last |-> 0]]]]
   /\ run = <<>>
-  /\ task = [a \in Acts |-> [scope |-> 0, vol |-> FALSE, res |-> NoSig, done |-> FALSE, ncan |-> 0, delay |-> 0, fin |-> "none"]]
+  /\ task = [a \in Acts |-> [scope |-> 0, vol |-> FALSE, res |-> NoSig, done |-> FALSE, ncan |-> 0, delay |-> 0, fin |-> "none", graced |-> FALSE]]
   /\ sc = [s \in Scopes |-> [owner |-> 0, kind |-> "none", open |-> FALSE, inter |-> FALSE,
                              children |-> <<>>, volatile |-> <<>>, failures |-> <<>>,
                              notif |-> NoSig, bodydone |-> FALSE]]
@@ -421,10 +421,31 @@ EndUser(x) ==
        /\ fault' = IF x = NoSig THEN fault
                    ELSE IF IsException(x) THEN "stopped:user" ELSE "stopped:internal"
 
+\* a task with a graceful cancellation handler ("grace"): it catches its first CancelTask, shuts down for one
+\* time unit and then re-raises it; a further cancel() during the shutdown is raised at that suspension point
+Graceful1 == IsTask(A) /\ task[A].fin = "grace" /\ ~task[A].graced /\ X # NoSig /\ X[1] = "ct" /\ X[2] = A
+             /\ now + 1 <= Horizon /\ Len(run) = 1
 UserExc ==
   /\ Running /\ Mode = "exc" /\ Top(A).k = "user" /\ act[A].cur.op = "none"
-  /\ EndUser(X)
-  /\ UNCHANGED <<now, pending, future, task, sc, subs, flag, lock>>
+  /\ IF Graceful1
+     THEN /\ act' = Push(Push(act, A, [k |-> "grace", x |-> X]), A, [k |-> "suspend"])
+          /\ future' = [future EXCEPT ![now + 1] = Append(@, Actv(A, Wk(A, Depth(A) + 2)))]
+          /\ task' = [task EXCEPT ![A].graced = TRUE]
+          /\ Hibernate
+          /\ ev' = E([e |-> "g", a |-> A, t |-> now])
+          /\ UNCHANGED <<cnt, fault>>
+     ELSE EndUser(X) /\ UNCHANGED <<future, task>>
+  /\ UNCHANGED <<now, pending, sc, subs, flag, lock>>
+
+GraceStep ==
+  /\ Running /\ Top(A).k = "grace"
+  /\ act' = Drop(act, A)
+  /\ IF Mode = "ret"
+     THEN /\ SetRun("exc", Top(A).x)           \* shutdown finished: re-raise the cancellation
+          /\ ev' = E([e |-> "r", a |-> A, op |-> "grace", t |-> now])
+     ELSE /\ run' = run                        \* a further signal cut the shutdown short
+          /\ ev' = E([e |-> "u", a |-> A, op |-> "grace", t |-> now, exc |-> X])
+  /\ UNCHANGED <<now, pending, future, task, sc, subs, flag, lock, obj, cnt, fault>>
 
 ----------------------------------------------------------------------------
 \* SCOPES (usim/_primitives/context.py)
@@ -647,9 +668,10 @@ UserOp ==
                               [e |-> "r", a |-> A, op |-> "open", t |-> now]>>
               /\ UNCHANGED <<future, run, task, flag, lock, fault>>
            \/ /\ In("do")
-              /\ \E s \in 1..cnt.sc : \E vol \in BOOLEAN : \E d \in {0, 1} : \E fin \in {"none", "raise", "spawn"} :
+              /\ \E s \in 1..cnt.sc : \E vol \in BOOLEAN : \E d \in {0, 1} : \E fin \in {"none", "raise", "spawn", "grace"} :
                    /\ (d = 0 \/ (In("do_after") /\ now + d <= Horizon))
-                   /\ (fin # "none" => In("do_fin"))
+                   /\ (fin \in {"raise", "spawn"} => In("do_fin"))
+                   /\ (fin = "grace" => In("do_grace"))
                    /\ (vol => In("do_volatile"))
                    /\ IF ~sc[s].inter
                       THEN \* ScopeClosed: the payload is closed and never runs
@@ -662,7 +684,7 @@ UserOp ==
                            /\ cnt' = [cnt EXCEPT !.act = k]
                            /\ act' = [Busy(ac, "do") EXCEPT ![k].life = "new"]
                            /\ task' = [task EXCEPT ![k] = [scope |-> s, vol |-> vol, res |-> NoSig,
-                                                           done |-> FALSE, ncan |-> 0, delay |-> d, fin |-> fin]]
+                                                           done |-> FALSE, ncan |-> 0, delay |-> d, fin |-> fin, graced |-> FALSE]]
                            /\ pending' = Append(pending, Actv(k, NoSig))
                            /\ sc' = IF vol THEN [sc EXCEPT ![s].volatile = Append(@, k)]
                                     ELSE [sc EXCEPT ![s].children = Append(@, k)]
@@ -1230,7 +1252,7 @@ Next ==
   \/ StreamOp \/ QGetStep \/ ChanStep
   \/ CondOp \/ ConnStep \/ DeliverTrigger \/ HibExc
   \/ ResOp \/ BorrowStep \/ BorrowBodyExc \/ DeliverHelper
-  \/ TickOp \/ TickStep
+  \/ TickOp \/ TickStep \/ GraceStep
 
 Spec == Init /\ [][Next]_vars
 =============================================================================
